@@ -95,3 +95,181 @@ def citation_regex(p: Program, deref: FuncInfo) -> Optional[str]:
         if isinstance(raw, ast.Call) and raw.args and isinstance(raw.args[0], ast.Constant) and isinstance(raw.args[0].value, str):
             return raw.args[0].value
     return None
+
+
+# ---------------------------------------------------------------------------
+# the phases of AssemblyManager.assemble()
+
+
+def _tree_mentions(p: Program, fi: FuncInfo, pred, depth: int = 3, seen=None) -> bool:
+    seen = seen if seen is not None else set()
+    if id(fi) in seen:
+        return False
+    seen.add(id(fi))
+    if any(pred(n) for n in ast.walk(fi.node)):
+        return True
+    return depth > 0 and any(_tree_mentions(p, g, pred, depth - 1, seen) for g in _callees(p, fi))
+
+
+def manager_phases(p: Program) -> dict:
+    """{'map': f, 'walk': f, 'annotate': f}: the functions AssemblyManager.assemble()
+    calls (directly, or through a helper / context manager it uses) to index
+    the modules by overhang (the one that can raise DuplicateModules), to chain
+    them (the one that can raise MissingModule) and to annotate the product
+    (the one that writes the topology).  Found by what they do, so that
+    renaming or moving them does not blind the kernels that evaluate them."""
+    cached = getattr(p, "_manager_phases", None)
+    if cached is not None:
+        return cached
+    entry = p.get_func("moclo.core._assembly.AssemblyManager.assemble")
+
+    def names(word):
+        return lambda n: (isinstance(n, ast.Attribute) and n.attr == word) or (isinstance(n, ast.Name) and n.id == word)
+
+    preds = {
+        "map": names("DuplicateModules"),
+        "walk": names("MissingModule"),
+        "annotate": lambda n: isinstance(n, ast.Constant) and n.value == "topology",
+    }
+    out = {}
+    first = _callees(p, entry)
+    second = [g for f in first for g in _callees(p, f)]
+    for role, pred in preds.items():
+        for level in (first, second):
+            hits = []
+            for f in level:
+                if f not in hits and _tree_mentions(p, f, pred):
+                    hits.append(f)
+            # the outermost function of the phase: not one that merely is called by another hit
+            hits = [f for f in hits if not any(f in _callees(p, g) for g in hits if g is not f)]
+            if len(hits) == 1:
+                out[role] = hits[0]
+                break
+        if role not in out:
+            raise AnalysisError("anchor vanished: the %s phase of AssemblyManager.assemble() is not recognised" % role)
+    p._manager_phases = out
+    return out
+
+
+# ---------------------------------------------------------------------------
+# the per-class compiled structure
+
+
+def regex_getter(p: Program) -> FuncInfo:
+    """the function of moclo.core._structured that compiles DNARegex(cls.structure()) for a class"""
+    cached = getattr(p, "_regex_getter", None)
+    if cached is not None:
+        return cached
+    m = p.modules.get("moclo.core._structured")
+    if m is None:
+        raise AnalysisError("anchor vanished: module moclo.core._structured")
+    cands = []
+    funcs = list(m.functions.values()) + [v for ci in m.classes.values() for v in ci.attrs.values() if isinstance(v, FuncInfo)]
+    for f in funcs:
+        if any(isinstance(n, ast.Call) and isinstance(n.func, ast.Name) and n.func.id == "DNARegex" for n in ast.walk(f.node)):
+            cands.append(f)
+    if len(cands) != 1:
+        raise AnalysisError("anchor vanished: the function compiling the structure pattern (DNARegex(cls.structure())) is not recognised: %s"
+                            % [f.qualname for f in cands])
+    p._regex_getter = cands[0]
+    return cands[0]
+
+
+def regex_slot(p: Program) -> str:
+    """name of the per-class attribute the compiled pattern is kept in"""
+    g = regex_getter(p)
+    for n in ast.walk(g.node):
+        if isinstance(n, ast.Assign) and isinstance(n.value, ast.Call) and isinstance(n.value.func, ast.Name) and n.value.func.id == "DNARegex":
+            for t in n.targets:
+                if isinstance(t, ast.Attribute):
+                    return t.attr
+    raise AnalysisError("anchor vanished: the per-class slot of the compiled structure pattern is not recognised in %s" % g.qualname)
+
+
+def letter_table(p: Program):
+    """(name, ast.Dict) of DNARegex's letter -> character-class table"""
+    ci = p.get_class("moclo.regex.DNARegex")
+    hits = []
+    for nm, raw in ci.attrs.items():
+        if isinstance(raw, ast.Dict) and raw.values and all(
+                isinstance(v, ast.Constant) and isinstance(v.value, str) and v.value.startswith("[") for v in raw.values):
+            hits.append((nm, raw))
+    if len(hits) != 1:
+        for nm, raw in ci.module.assigns.items():
+            if isinstance(raw, ast.Dict) and raw.values and all(
+                    isinstance(v, ast.Constant) and isinstance(v.value, str) and v.value.startswith("[") for v in raw.values):
+                hits.append((nm, raw))
+    if len(hits) != 1:
+        raise AnalysisError("anchor vanished: DNARegex's letter table (a dict literal of character classes) is not recognised")
+    return hits[0]
+
+
+def by_canonical_name(p: Program, qualname: str) -> Optional[FuncInfo]:
+    base = "moclo.core._assembly.AssemblyManager."
+    try:
+        if qualname == base + "_generate_modules_map":
+            return manager_phases(p)["map"]
+        if qualname == base + "_generate_assembly":
+            return manager_phases(p)["walk"]
+        if qualname == base + "_annotate_assembly":
+            return manager_phases(p)["annotate"]
+        if qualname == base + "_deref_citations":
+            return citation_functions(p)[0]
+        if qualname == base + "_ref_citations":
+            return citation_functions(p)[1]
+        if qualname == "moclo.core._structured.StructuredRecord._get_regex":
+            return regex_getter(p)
+    except AnalysisError:
+        return None
+    return None
+
+
+def canonical_qualname(p: Program, role: str) -> str:
+    """qualified name, on the analysed tree, of the function playing `role`"""
+    return {"map": lambda: manager_phases(p)["map"], "walk": lambda: manager_phases(p)["walk"],
+            "annotate": lambda: manager_phases(p)["annotate"], "get_regex": lambda: regex_getter(p)}[role]().qualname
+
+
+def match_call_tree(p: Program, ci, root: str = "_match") -> List[FuncInfo]:
+    """every function that takes part in the evaluation of ``ci()._match``: the
+    implementations of `_match` on the MRO and whatever they reach through
+    self.<name> (hooks, split-off helpers, a separately cached raw match),
+    the pattern getter and structure() excluded"""
+    from .loader import ClassInfo
+
+    skip = {regex_getter(p).name, "structure"}
+    names, todo, out = set(), [root], []
+    while todo:
+        nm = todo.pop()
+        if nm in names:
+            continue
+        names.add(nm)
+        for c in p.mro(ci):
+            if isinstance(c, ClassInfo):
+                raw = c.attrs.get(nm)
+                if isinstance(raw, FuncInfo):
+                    if raw not in out:
+                        out.append(raw)
+                    me = raw.node.args.args[0].arg if raw.node.args.args else "self"
+                    for n in ast.walk(raw.node):
+                        if isinstance(n, ast.Attribute) and isinstance(n.value, ast.Name) and n.value.id == me and n.attr not in names and n.attr not in skip:
+                            for c2 in p.mro(ci):
+                                if isinstance(c2, ClassInfo) and isinstance(c2.attrs.get(n.attr), FuncInfo):
+                                    todo.append(n.attr)
+                                    break
+    return out
+
+
+def resistance_table(p: Program) -> str:
+    """name of the module-level dict literal find_resistance reads its answers from"""
+    fr = p.get_func("moclo.registry._utils.find_resistance")
+    mod = fr.module
+    dicts = [nm for nm, raw in mod.assigns.items() if isinstance(raw, ast.Dict)]
+    used = []
+    trees = [fr.node] + [g.node for g in _callees(p, fr)]
+    for nm in dicts:
+        if any(isinstance(n, ast.Name) and n.id == nm for t in trees for n in ast.walk(t)):
+            used.append(nm)
+    if len(used) != 1:
+        raise AnalysisError("anchor vanished: the antibiotics table read by find_resistance is not recognised (%s)" % (used or dicts))
+    return used[0]
